@@ -9,7 +9,7 @@
    i.e. the kernel adds to the prior gx exactly the adjoint of the forward map (LocalAdjoint
    of the gather-type operators; `gather` is the forward interpreter's output, see
    C02_gather_forward_semantics). pick / batch_pick handle batch sharing inside the same
-   program (bsel), so their single statement covers the fold as well. *)
+   program (bidx), so their single statement covers the fold as well. *)
 From Coq Require Import List Arith Lia Permutation.
 From PV Require Import Tensor.Kernels Tensor.Index Tensor.KernelProofs Tensor.ProofsGather.
 Import ListNotations.
